@@ -1,4 +1,426 @@
-(* Executable interface of the Parse layer (op codes 3300..3399). Stub until the layer is built. *)
-From A1 Require Import Base.Res.
+(* Executable interface of the Parse / Resolve layer (op codes 3300..3399).
+   Mirror: harness/a1h/src/parse.rs (the formats are described in its header).
+     3301  one module text            -> tokenize, parse_module, resolve_single; dump of the resolved model
+     3302  k (len code*len)*k         -> every module tokenized and parsed in load order, resolve_all; dumps
+     3303  flags code*                -> outcome per stage (0 tokenizer, 1 parser, 2 resolver, 3 to_rust, 4 to_protobuf);
+                                         the panic site fields (file line msg) are printed as 0 0 0 -- checks/C14.py
+                                         blanks them in the implementation's answer before comparing; stages 5, 6
+                                         (code generators) are not modelled and are cut there as well
+     3304  n1 <3302 input> <3302 input> -> len(answer 1) answer 1 answer 2
+     331x  k <k opaque ints> <input of 330x>
+   A lookup that recurses without bound in the Rust code (resolver: cyclic IMPORTS of an undefined name; to_rust:
+   TagResolver on a cycle of untagged type references / CHOICE alternatives) kills the process there; the harness
+   runner reports that as `3 32`, and so does the model.  Fuel exhaustion of the parser would print `-3`. *)
+From A1 Require Import Base.Res Front.Lex Front.Ast Front.Parse Front.Resolve.
 Local Open Scope Z_scope.
-Definition run_parse (m : mode) (op : Z) (a : list Z) : list Z := [-1].
+
+Definition zn (n : N) : Z := Z.of_N n.
+
+Definition d_str (s : str) : list Z := Z.of_nat (length s) :: map zn s.
+
+Definition d_oid (o : option (list oidc)) : list Z :=
+  match o with
+  | None => [0]
+  | Some l =>
+      1 :: Z.of_nat (length l) ::
+      flat_map (fun c => match c with
+                         | NameForm s => 0 :: d_str s
+                         | NumberForm n => [1; zn n]
+                         | NameAndNumberForm s n => 2 :: d_str s ++ [zn n]
+                         end) l
+  end.
+
+Definition d_tag (t : option atag) : list Z :=
+  match t with
+  | None => [-1]
+  | Some (TagUniversal n) => [0; zn n]
+  | Some (TagApplication n) => [1; zn n]
+  | Some (TagContext n) => [2; zn n]
+  | Some (TagPrivate n) => [3; zn n]
+  end.
+
+Definition d_lit (l : literal) : list Z :=
+  match l with
+  | LBool b => [0; if b then 1 else 0]
+  | LString s => 1 :: d_str s
+  | LInteger z => [2; z]
+  | LOctets bs => 3 :: Z.of_nat (length bs) :: map zn bs
+  | LEnumVariant t v => 4 :: d_str t ++ d_str v
+  end.
+
+Definition zb (b : bool) : Z := if b then 1 else 0.
+
+Definition d_size (s : size N) : list Z :=
+  match s with
+  | SAny => [0]
+  | SFix n e => [1; zn n; zb e]
+  | SRange a b e => [2; zn a; zn b; zb e]
+  end.
+
+Definition d_optz (o : option Z) : list Z := match o with None => [0] | Some v => [1; v] end.
+Definition d_optn (o : option N) : list Z := match o with None => [-1] | Some v => [zn v] end.
+Definition d_default (d : option literal) : list Z := match d with None => [0] | Some l => 1 :: d_lit l end.
+
+Fixpoint d_type (t : rty) : list Z :=
+  match t with
+  | TBoolean => [0]
+  | TInteger (lo, hi, e) c =>
+      1 :: d_optz lo ++ d_optz hi ++ [zb e] ++ Z.of_nat (length c) :: flat_map (fun p => d_str (fst p) ++ [snd p]) c
+  | TString s c =>
+      2 :: d_size s ++ [match c with Utf8 => 0 | Numeric => 1 | Printable => 2 | Ia5 => 3 | Visible => 4 end]
+  | TOctetString s => 3 :: d_size s
+  | TBitString s c => 4 :: d_size s ++ Z.of_nat (length c) :: flat_map (fun p => d_str (fst p) ++ [zn (snd p)]) c
+  | TNull => [5]
+  | TOptional i => 6 :: d_type i
+  | TDefault i l => 7 :: d_type i ++ d_lit l
+  | TSequence fs e =>
+      8 :: Z.of_nat (length fs) ::
+      (fix go (l : list (rfield)) : list Z :=
+         match l with
+         | [] => []
+         | (n, (tag, t0, d)) :: r => d_str n ++ d_tag tag ++ d_type t0 ++ d_default d ++ go r
+         end) fs ++ d_optn e
+  | TSequenceOf i s => 9 :: d_type i ++ d_size s
+  | TSet fs e =>
+      10 :: Z.of_nat (length fs) ::
+      (fix go (l : list (rfield)) : list Z :=
+         match l with
+         | [] => []
+         | (n, (tag, t0, d)) :: r => d_str n ++ d_tag tag ++ d_type t0 ++ d_default d ++ go r
+         end) fs ++ d_optn e
+  | TSetOf i s => 11 :: d_type i ++ d_size s
+  | TEnumerated vs e =>
+      12 :: Z.of_nat (length vs) :: flat_map (fun v => d_str (fst v) ++ d_optn (snd v)) vs ++ d_optn e
+  | TChoice vs e =>
+      13 :: Z.of_nat (length vs) ::
+      (fix go (l : list (str * option atag * rty)) : list Z :=
+         match l with
+         | [] => []
+         | (n, tag, t0) :: r => d_str n ++ d_tag tag ++ d_type t0 ++ go r
+         end) vs ++ d_optn e
+  | TRef n tag => 14 :: d_str n ++ d_tag tag
+  end.
+
+Definition d_asn (a : rasn) : list Z :=
+  let '(tag, t, d) := a in d_tag tag ++ d_type t ++ d_default d.
+
+Definition d_model (m : amodel rasn) : list Z :=
+  d_str (m_name m) ++ d_oid (m_oid m)
+  ++ Z.of_nat (length (m_imports m))
+     :: flat_map (fun i => Z.of_nat (length (i_what i)) :: flat_map d_str (i_what i) ++ d_str (i_from i) ++ d_oid (i_from_oid i))
+                 (m_imports m)
+  ++ Z.of_nat (length (m_definitions m))
+     :: flat_map (fun d => d_str (fst d) ++ d_asn (snd d)) (m_definitions m)
+  ++ Z.of_nat (length (m_value_references m))
+     :: flat_map (fun v => d_str (fst (fst v)) ++ d_asn (snd (fst v)) ++ d_lit (snd v)) (m_value_references m).
+
+Definition d_tok (t : option token) : list Z :=
+  match t with
+  | None => [-1]
+  | Some (Text l c s) => 0 :: zn l :: zn c :: d_str s
+  | Some (Separator l c ch) => [1; zn l; zn c; 1; zn ch]
+  end.
+
+Definition d_rerr (e : rerr) : list Z :=
+  match e with
+  | FailedToResolveType n => 0 :: d_str n
+  | FailedToResolveReference n => 1 :: d_str n
+  | FailedToParseLiteral n => 2 :: d_str n
+  end.
+
+Definition is_scalar (z : Z) : bool :=
+  ((0 <=? z) && (z <? 55296)) || ((57344 <=? z) && (z <? 1114112)).
+
+Definition CRASH : list Z := [3; 32].
+
+(* tokenizer + parser of one text; Error answers are completed by the caller *)
+Inductive front (A : Type) : Type :=
+| FOk (a : A)
+| FAnswer (a : list Z).
+Arguments FOk {A} a.
+Arguments FAnswer {A} a.
+
+Definition parse_text (m : mode) (idx : list Z) (a : list Z) : front umodel :=
+  match tokenize m (map Z.to_N a) with
+  | Panic p => FAnswer [2; 0; zn p]
+  | Err e => FAnswer [2; 0; zn e]
+  | Ok ts =>
+      match parse ts with
+      | POk u => FOk u
+      | PErr k t => FAnswer (1 :: 1 :: idx ++ zn k :: d_tok t)
+      | PPanic p => FAnswer [2; 1; zn p]
+      | POutOfFuel => FAnswer [-3]
+      end
+  end.
+
+Definition op_3301 (m : mode) (a : list Z) : list Z :=
+  if negb (forallb is_scalar a) then [-2] else
+  match parse_text m [] a with
+  | FAnswer o => o
+  | FOk u =>
+      match resolve_single u with
+      | ROk r => 0 :: d_model r
+      | RErr e => 1 :: 2 :: d_rerr e
+      | RDiverge => CRASH
+      end
+  end.
+
+(* k (len code*len)*k *)
+Fixpoint split_texts (k : nat) (a : list Z) : option (list (list Z)) :=
+  match k with
+  | O => match a with [] => Some [] | _ => None end
+  | S k' =>
+      match a with
+      | [] => None
+      | len :: r =>
+          if (len <? 0) || (Z.of_nat (length r) <? len) then None
+          else let n := Z.to_nat len in
+               match split_texts k' (skipn n r) with
+               | Some l => Some (firstn n r :: l)
+               | None => None
+               end
+      end
+  end.
+
+Definition texts_of (a : list Z) : option (list (list Z)) :=
+  match a with
+  | [] => None
+  | k :: r => if (k <? 0) || (Z.of_nat (length r) <? k) then None
+              else match split_texts (Z.to_nat k) r with
+                   | Some l => if forallb (forallb is_scalar) l then Some l else None
+                   | None => None
+                   end
+  end.
+
+Fixpoint parse_all (m : mode) (idx : Z) (ts : list (list Z)) (acc : list umodel) : front (list umodel) :=
+  match ts with
+  | [] => FOk (rev acc)
+  | t :: r =>
+      match parse_text m [idx] t with
+      | FOk u => parse_all m (idx + 1) r (u :: acc)
+      | FAnswer o => FAnswer o
+      end
+  end.
+
+Definition op_3302 (m : mode) (a : list Z) : list Z :=
+  match texts_of a with
+  | None => [-2]
+  | Some ts =>
+      match parse_all m 0 ts [] with
+      | FAnswer o => o
+      | FOk us =>
+          match resolve_all us with
+          | ROk rs => 0 :: Z.of_nat (length rs) :: flat_map d_model rs
+          | RErr e => 1 :: 2 :: d_rerr e
+          | RDiverge => CRASH
+          end
+      end
+  end.
+
+(* the process dies as soon as one of the two runs diverges *)
+Definition is_crash (o : list Z) : bool :=
+  match o with [3; 32] => true | _ => false end.
+
+Definition op_3304 (m : mode) (a : list Z) : list Z :=
+  match a with
+  | [] => [-2]
+  | n1 :: r =>
+      if (n1 <? 0) || (Z.of_nat (length r) <? n1) || (Z.of_nat (length a) <=? n1) then [-2]
+      else
+        let n := Z.to_nat n1 in
+        let first := op_3302 m (firstn n r) in
+        if is_crash first then CRASH else
+        let second := op_3302 m (skipn n r) in
+        if is_crash second then CRASH else
+        Z.of_nat (length first) :: first ++ second
+  end.
+
+(* ---------- the part of Model::to_rust (rust.rs, asn/tag_resolver.rs) that decides whether it returns:
+   TagResolver with an empty scope (Model::to_rust passes `&[]`), so only local definitions are consulted ---------- *)
+
+Section ToRust.
+  Variable defs : list (str * rasn).
+
+  (* tri-state of a tag lookup: Found (Some t) / Found None / Diverges *)
+  Fixpoint resolve_type_tag (fuel : nat) (t : rty) {struct fuel} : lookup (option atag) :=
+    match fuel with
+    | O => Diverges
+    | S f =>
+        match t with
+        | TBoolean => Found (Some (TagUniversal 1))
+        | TInteger _ _ => Found (Some (TagUniversal 2))
+        | TBitString _ _ => Found (Some (TagUniversal 3))
+        | TOctetString _ => Found (Some (TagUniversal 4))
+        | TEnumerated _ _ => Found (Some (TagUniversal 10))
+        | TString _ Numeric => Found (Some (TagUniversal 18))
+        | TString _ Printable => Found (Some (TagUniversal 19))
+        | TString _ Visible => Found (Some (TagUniversal 26))
+        | TString _ Utf8 => Found (Some (TagUniversal 12))
+        | TString _ Ia5 => Found (Some (TagUniversal 22))
+        | TNull => Found (Some (TagUniversal 5))
+        | TOptional i => resolve_type_tag f i
+        | TDefault i _ => resolve_type_tag f i
+        | TSequence _ _ => Found (Some (TagUniversal 16))
+        | TSequenceOf _ _ => Found (Some (TagUniversal 16))
+        | TSet _ _ => Found (Some (TagUniversal 17))
+        | TSetOf _ _ => Found (Some (TagUniversal 17))
+        | TChoice vs e =>
+            let n := match e with Some k => S (N.to_nat k) | None => length vs end in
+            (* .map(..).collect::<Option<Vec<Tag>>>() stops at the first None; some tag of the list is returned (the
+               smallest one in Rust: only Some/None/divergence matters here) *)
+            (fix go (l : list (str * option atag * rty)) (best : option atag) : lookup (option atag) :=
+               match l with
+               | [] => Found best
+               | (_, Some tg, _) :: r => go r (Some tg)
+               | (_, None, t0) :: r =>
+                   match resolve_type_tag f t0 with
+                   | Found (Some tg) => go r (Some tg)
+                   | Found None => Found None
+                   | NotFound => Found None
+                   | Diverges => Diverges
+                   end
+               end) (firstn n vs) None
+        | TRef name tag =>
+            match tag with
+            | Some tg => Found (Some tg)
+            | None => resolve_tag f name
+            end
+        end
+    end
+  with resolve_tag (fuel : nat) (name : str) {struct fuel} : lookup (option atag) :=
+    match fuel with
+    | O => Diverges
+    | S f =>
+        match find (fun d => str_eqb (fst d) name) defs with
+        | None => Found None
+        | Some (_, (Some tg, _, _)) => Found (Some tg)
+        | Some (_, (None, t, _)) => resolve_type_tag f t
+        end
+    end.
+
+  Variable fuel : nat.
+
+  Definition diverges (l : lookup (option atag)) : bool := match l with Diverges => true | _ => false end.
+
+  (* does definition_type_to_rust_type / definition_to_rust reach a diverging lookup?  `tagged` = the `tag`
+     argument is Some (then `tag.or_else(..)` does not evaluate its closure) *)
+  Fixpoint dtype_diverges (t : rty) (tagged : bool) : bool :=
+    match t with
+    | TOptional i | TDefault i _ | TSequenceOf i _ | TSetOf i _ =>
+        (* resolve_no_default(inner): resolve_default(inner) uses an empty model (cannot diverge); then
+           self.resolve_type_tag(inner) *)
+        let here := if tagged then false else diverges (resolve_type_tag fuel i) in
+        (* the tag handed down only gates a lookup of the same `i` again: handing down `tagged` decides the same *)
+        here || dtype_diverges i tagged
+    | TSequence fs _ | TSet fs _ =>
+        (fix go (l : list rfield) : bool :=
+           match l with
+           | [] => false
+           | (_, (tag, t0, _)) :: r =>
+               dtype_diverges t0 (match tag with Some _ => true | None => false end) || go r
+           end) fs
+        || (if tagged then false else diverges (resolve_type_tag fuel t))
+    | TChoice vs _ =>
+        (fix go (l : list (str * option atag * rty)) : bool :=
+           match l with
+           | [] => false
+           | (_, tag, t0) :: r =>
+               dtype_diverges t0 (match tag with Some _ => true | None => false end) || go r
+           end) vs
+        || (if tagged then false else diverges (resolve_type_tag fuel t))
+    | TRef name _ => diverges (resolve_tag fuel name)
+    | _ => false
+    end.
+
+  (* definition_to_rust on a top-level definition *)
+  Definition def_diverges (a : rasn) : bool :=
+    let '(tag, t, _) := a in
+    let tagged := match tag with Some _ => true | None => false end in
+    match t with
+    | TSequence fs _ | TSet fs _ =>
+        (fix go (l : list rfield) : bool :=
+           match l with
+           | [] => false
+           | (_, (ftag, t0, _)) :: r =>
+               dtype_diverges t0 (match ftag with Some _ => true | None => false end) || go r
+           end) fs
+    | TChoice vs _ =>
+        (fix go (l : list (str * option atag * rty)) : bool :=
+           match l with
+           | [] => false
+           | (_, vtag, t0) :: r =>
+               dtype_diverges t0 (match vtag with Some _ => true | None => false end) || go r
+           end) vs
+    | TSequenceOf i _ | TSetOf i _ | TOptional i | TDefault i _ => dtype_diverges i tagged
+    | TRef name _ => diverges (resolve_tag fuel name)
+    | _ => false
+    end.
+End ToRust.
+
+Fixpoint ty_nodes (t : rty) : nat :=
+  match t with
+  | TOptional i | TDefault i _ | TSequenceOf i _ | TSetOf i _ => S (ty_nodes i)
+  | TSequence fs _ | TSet fs _ =>
+      S ((fix go (l : list rfield) : nat :=
+            match l with [] => O | (_, (_, t0, _)) :: r => (ty_nodes t0 + go r)%nat end) fs)
+  | TChoice vs _ =>
+      S ((fix go (l : list (str * option atag * rty)) : nat :=
+            match l with [] => O | (_, _, t0) :: r => (ty_nodes t0 + go r)%nat end) vs)
+  | _ => 1%nat
+  end.
+
+Definition to_rust_diverges (m : amodel rasn) : bool :=
+  let defs := m_definitions m in
+  let nodes := fold_right (fun d acc => (ty_nodes (snd (fst (snd d))) + acc)%nat) 1%nat defs in
+  let fuel := (S (length defs) * S nodes)%nat in
+  existsb (fun d => def_diverges defs fuel (snd d)) defs.
+
+Definition tok_len (t : token) : Z :=
+  match t with Text _ _ s => Z.of_nat (length s) | Separator _ _ _ => 1 end.
+
+Definition op_3303 (m : mode) (a : list Z) : list Z :=
+  match a with
+  | [] => [-2]
+  | flags :: text =>
+      if negb (forallb is_scalar text) then [-2] else
+      match tokenize m (map Z.to_N text) with
+      | Panic p => [0; 2; zn p; 0; 0; 0]
+      | Err e => [0; 2; zn e; 0; 0; 0]
+      | Ok ts =>
+          match parse ts with
+          | PErr k t =>
+              [0; 0; 1; 1; zn k] ++
+              match t with
+              | None => [0; 0; 0; 0]
+              | Some tk => [1; zn (tok_line tk); zn (tok_column tk); tok_len tk]
+              end
+          | PPanic p => [0; 0; 1; 2; zn p; 0; 0; 0]
+          | POutOfFuel => [-3]
+          | POk u =>
+              match resolve_single u with
+              | RErr e => [0; 0; 1; 0; 2; 1; hd 0 (d_rerr e); 0; 0; 0; 0]
+              | RDiverge => CRASH
+              | ROk r =>
+                  if to_rust_diverges r then CRASH
+                  else [0; 0; 1; 0; 2; 0; 3; 0] ++ (if Z.odd flags then [4; 0] else [])
+              end
+          end
+      end
+  end.
+
+Definition run_base (m : mode) (op : Z) (a : list Z) : list Z :=
+  match op with
+  | 3301 => op_3301 m a
+  | 3302 => op_3302 m a
+  | 3303 => op_3303 m a
+  | 3304 => op_3304 m a
+  | _ => [-1]
+  end.
+
+Definition run_parse (m : mode) (op : Z) (a : list Z) : list Z :=
+  if (3311 <=? op) && (op <=? 3314) then
+    match a with
+    | k :: r => if (0 <=? k) && (k <? Z.of_nat (length a)) then run_base m (op - 10) (skipn (Z.to_nat k) r) else [-2]
+    | [] => [-2]
+    end
+  else run_base m op a.
